@@ -409,18 +409,66 @@ def r5_destinations(cx, mods, classes):
     # mangle_command maps '/' away
     mg = cx.repo.module("insights.util.mangle")
     fn = mg.func("mangle_command", "C06.R5")
-    chain = [a for a in walk_body(fn.body) if isinstance(a, ast.Assign) and isinstance(a.targets[0], ast.Name)]
-    ret = [r for r in walk_body(fn.body) if isinstance(r, ast.Return)]
-    ok = False
-    if ret and isinstance(ret[-1].value, ast.Name):
-        name = ret[-1].value.id
-        defs = [a for a in chain if a.targets[0].id == name]
-        idx = [i for i, a in enumerate(defs) if any(isinstance(x, ast.Call) and call_name(x) == "re.sub" and len(x.args) >= 3 and const_str(x.args[0]) == "/" and const_str(x.args[1]) is not None and "/" not in const_str(x.args[1]) and U(x.args[2]) == name for x in ast.walk(a.value))]
-        if idx:
-            later = defs[idx[-1] + 1:]
-            ok = all(isinstance(a.value, ast.Subscript) and U(a.value.value) == name or (isinstance(a.value, ast.Call) and call_attr(a.value) in ("strip", "lstrip", "rstrip")) for a in later)
+    # taint "may contain '/'" through the function: the parameter is tainted; replacing '/' by a slash-free constant cleans; slicing, stripping and
+    # substitutions of other patterns by slash-free constants preserve; everything else taints
+    tainted = dict((p_, True) for p_ in params(fn))
+
+    def _pattern_of(e):
+        """Literal regex of a pattern argument / compiled-pattern receiver, or None."""
+        if const_str(e) is not None:
+            return const_str(e)
+        if isinstance(e, ast.Name) and mg.top.get(e.id) is not None:
+            v = mg.top.get(e.id)
+            if isinstance(v, ast.Call) and call_name(v) == "re.compile" and v.args:
+                return const_str(v.args[0])
+        if isinstance(e, ast.IfExp):
+            a_, b_ = _pattern_of(e.body), _pattern_of(e.orelse)
+            return a_ if a_ is not None and b_ is not None and ((a_ == "/") == (b_ == "/")) else None
+        if isinstance(e, ast.Name):
+            ds = [a for a in walk_body(fn.body) if isinstance(a, ast.Assign) and U(a.targets[0]) == e.id]
+            ps_ = [_pattern_of(a.value) for a in ds]
+            if ps_ and all(x is not None for x in ps_) and len(set(x == "/" for x in ps_)) == 1:
+                return ps_[0]
+        return None
+
+    def _may_slash(e):
+        if isinstance(e, ast.Constant):
+            return isinstance(e.value, str) and "/" in e.value
+        if isinstance(e, ast.Name):
+            return tainted.get(e.id, True)
+        if isinstance(e, ast.Subscript):
+            return _may_slash(e.value)
+        if isinstance(e, ast.Call):
+            a = call_attr(e)
+            if call_name(e) == "re.sub" and len(e.args) >= 3:
+                pat, repl, subj = e.args[0], e.args[1], e.args[2]
+                if _may_slash(repl):
+                    return True
+                return False if _pattern_of(pat) == "/" else _may_slash(subj)
+            if a == "sub" and isinstance(e.func, ast.Attribute) and len(e.args) >= 2 and _pattern_of(e.func.value) is not None:
+                repl, subj = e.args[0], e.args[1]
+                if _may_slash(repl):
+                    return True
+                return False if _pattern_of(e.func.value) == "/" else _may_slash(subj)
+            if a == "replace" and isinstance(e.func, ast.Attribute) and len(e.args) == 2:
+                if _may_slash(e.args[1]):
+                    return True
+                return False if const_str(e.args[0]) == "/" else _may_slash(e.func.value)
+            if a in ("strip", "lstrip", "rstrip", "lower", "upper") and isinstance(e.func, ast.Attribute):
+                return _may_slash(e.func.value)
+        return True
+    rets_clean = []
+    stmts = sorted([x for x in walk_body(fn.body) if isinstance(x, (ast.Assign, ast.Return))], key=lambda x: (x.lineno, x.col_offset))
+    for st_ in stmts:
+        if isinstance(st_, ast.Assign) and isinstance(st_.targets[0], ast.Name):
+            new_ = _may_slash(st_.value)
+            nested = enclosing(st_, (ast.If, ast.For, ast.While, ast.Try)) is not None
+            tainted[st_.targets[0].id] = (tainted.get(st_.targets[0].id, False) or new_) if nested else new_
+        elif isinstance(st_, ast.Return) and st_.value is not None:
+            rets_clean.append(not _may_slash(st_.value))
+    ok = bool(rets_clean) and all(rets_clean)
     cx.require(ok, fn, "mangle_command replaces every '/' and nothing re-introduces one afterwards (a mangled command is a single file name)",
-               construct="re.sub('/', '.', mangledname) ... return mangledname")
+               construct="'/' taint of the returned value: %s" % ["clean" if c_ else "may contain '/'" for c_ in rets_clean])
     # who may create files in spec_factory / serde
     allowed = set([(SF, "ContentProvider.write"), (SF, "RawFileProvider.write"), ("insights.core.serde", "Hydration.dehydrate")])
     for mn in (SF, "insights.core.serde"):
